@@ -727,6 +727,9 @@ func (fr *Frame) checkCallPre(in ssa.Instruction, callee *ssa.Function, sp *Func
 				}
 				cenv.vars["caller."+k] = v
 			}
+			// spawned: the call is the operand of a go statement (its effects are not awaited)
+			_, isGo := in.(*ssa.Go)
+			cenv.vars["spawned"] = Val{T: tBool, S: fmt.Sprint(isGo)}
 			for i, c := range cls {
 				t, err := cenv.evalBool(c.E)
 				if err != nil {
